@@ -574,7 +574,7 @@ class BusAuthenticator :
             args = b''
         else:
             cmd, args = line.split(b' ', 1)
-        m = getattr(self, '_auth_' + cmd.decode(), None)
+        m = getattr(self, '_auth_' + cmd.decode('ascii', 'replace'), None)
         if m:
             m(args)
         else:
@@ -617,7 +617,12 @@ class BusAuthenticator :
             return
 
         if response:
-            response = binascii.unhexlify(response.strip()).decode('ascii')
+            try:
+                response = binascii.unhexlify(response.strip()).decode('ascii')
+            except ValueError:
+                # not hexadecimal, or not ASCII once decoded
+                self.reject()
+                return
 
         status, challenge = self.current_mech.step(response)
 
